@@ -221,7 +221,8 @@ def _binds(node):
 
 def _inline_helpers(tree, known=()):
     """(h) A module-level function `_h(p1..pn)` (private name, no decorator, plain positional parameters, no
-    yield / global / nonlocal) that the module mentions exactly once, as `return _h(a1..an)` or `v = _h(a1..an)` /
+    yield / global / nonlocal) that the module only mentions in calls made as whole statements (all of them, or none are
+    touched), `return _h(a1..an)` or `v = _h(a1..an)` /
     `_h(a1..an)` with plain local names as arguments, is read at that call site: its body replaces the statement,
     parameters renamed to the argument names, its other locals renamed where they would meet a name of the caller.
     The second form needs a helper whose only `return` is its last statement and that does not rebind a parameter.
@@ -236,6 +237,7 @@ def _inline_helpers(tree, known=()):
             helpers[st.name] = st
     if not helpers:
         return False
+    _hoist_helper_calls(tree, helpers)
     mentions = {}
     for n in ast.walk(tree):
         if isinstance(n, ast.Name) and n.id in helpers:
@@ -249,6 +251,55 @@ def _inline_helpers(tree, known=()):
         elif isinstance(n, ast.alias) and (n.name in helpers or n.asname in helpers):
             mentions.setdefault(n.name if n.name in helpers else n.asname, []).append(n)
     changed = False
+    for hname, h in sorted(helpers.items()):
+        ms = mentions.get(hname, [])
+        if not ms:
+            continue
+        plan = []
+        ok = True
+        for fn in [n for n in ast.walk(tree) if isinstance(n, ast.FunctionDef) and n is not h]:
+            if fn in _nested_defs(h):
+                ok = False
+                break
+            todo = [fn]
+            while todo and ok:
+                node = todo.pop()
+                for field in ('body', 'orelse', 'finalbody', 'handlers'):
+                    b = getattr(node, field, None)
+                    if not isinstance(b, list):
+                        continue
+                    if field == 'handlers':
+                        todo.extend(b)
+                        continue
+                    for st in b:
+                        if isinstance(st, (ast.FunctionDef, ast.AsyncFunctionDef, ast.ClassDef)):
+                            continue
+                        todo.append(st)
+                        call = st.value if isinstance(st, (ast.Return, ast.Assign, ast.Expr)) else None
+                        if isinstance(call, ast.Call) and isinstance(call.func, ast.Name) and call.func.id == hname:
+                            new = _inlined_body(h, call, st, fn, copy)
+                            if new is None:
+                                ok = False
+                                break
+                            plan.append((b, st, new, call.func))
+        # every mention of the name must be one of the call sites read here (all sites or none)
+        if not ok or not plan or {id(x[3]) for x in plan} != {id(m_) for m_ in ms} or len(plan) != len(ms):
+            continue
+        for b, st, new, _ in plan:
+            i = b.index(st)
+            b[i:i + 1] = new
+        tree.body.remove(h)            # nothing names the definition any more
+        changed = True
+    if changed:
+        ast.fix_missing_locations(tree)
+    return changed
+
+
+def _hoist_helper_calls(tree, helpers):
+    """`return C % _h(a)` / `v = _h(a) + C`  ->  `_hv = _h(a); return C % _hv`: a call to a new helper that sits inside
+    the value of a return / assignment, under binary operators whose other operand is a constant or a plain name (so
+    nothing with an effect is evaluated before the call), is given a statement of its own."""
+    k = [0]
     for fn in [n for n in ast.walk(tree) if isinstance(n, ast.FunctionDef)]:
         todo = [fn]
         while todo:
@@ -267,27 +318,29 @@ def _inline_helpers(tree, known=()):
                         i += 1
                         continue
                     todo.append(st)
-                    call = st.value if isinstance(st, (ast.Return, ast.Assign, ast.Expr)) else None
-                    if not (isinstance(call, ast.Call) and isinstance(call.func, ast.Name) and call.func.id in helpers):
-                        i += 1
-                        continue
-                    h = helpers[call.func.id]
-                    if h is fn or len(mentions.get(h.name, [])) != 1 or mentions[h.name][0] is not call.func:
-                        i += 1
-                        continue
-                    new = _inlined_body(h, call, st, fn, copy)
-                    if new is None:
-                        i += 1
-                        continue
-                    b[i:i + 1] = new
-                    mentions[h.name] = []          # the site is gone; never inline the same helper twice
-                    tree.body.remove(h)            # nothing names the definition any more
-                    del helpers[h.name]
-                    changed = True
-                    i += len(new)
-    if changed:
-        ast.fix_missing_locations(tree)
-    return changed
+                    if isinstance(st, (ast.Return, ast.Assign)) and st.value is not None and not (
+                            isinstance(st.value, ast.Call) and isinstance(st.value.func, ast.Name) and st.value.func.id in helpers):
+                        # descend through BinOps with a harmless other operand
+                        parent, attr, e = st, 'value', st.value
+                        while isinstance(e, ast.BinOp):
+                            if isinstance(e.left, (ast.Constant, ast.Name)) and not isinstance(e.right, (ast.Constant, ast.Name)):
+                                parent, attr, e = e, 'right', e.right
+                            elif isinstance(e.right, (ast.Constant, ast.Name)) and not isinstance(e.left, (ast.Constant, ast.Name)):
+                                parent, attr, e = e, 'left', e.left
+                            else:
+                                break
+                        if parent is not st and isinstance(e, ast.Call) and isinstance(e.func, ast.Name) and e.func.id in helpers \
+                                and e.func.id != fn.name:
+                            name = '_hv%d' % k[0]
+                            k[0] += 1
+                            setattr(parent, attr, ast.copy_location(ast.Name(id=name, ctx=ast.Load()), e))
+                            b.insert(i, ast.copy_location(ast.Assign(targets=[ast.Name(id=name, ctx=ast.Store())], value=e), st))
+                            i += 1
+                    i += 1
+
+
+def _nested_defs(fn):
+    return [n for n in ast.walk(fn) if isinstance(n, ast.FunctionDef) and n is not fn]
 
 
 def _inlined_body(h, call, st, fn, copy):
@@ -325,8 +378,16 @@ def _inlined_body(h, call, st, fn, copy):
     tail_form = isinstance(st, ast.Return)
     rebound = stored & {p for p, _ in named}
     if not tail_form:
-        if rebound:
-            return None
+        # a rebound parameter writes the caller's variable: harmless when that variable is the one the call's result is
+        # assigned to anyway (`x = h(x, ...)`)
+        tgt = st.targets[0].id if isinstance(st, ast.Assign) and len(st.targets) == 1 and isinstance(st.targets[0], ast.Name) else None
+        if rebound and not all(a == tgt for p, a in named if p in rebound):
+            # otherwise the parameter becomes a local of its own, initialised from the caller's variable
+            moved = [(p, a) for p, a in named if p in rebound and a != tgt]
+            named = [(p, a) for p, a in named if (p, a) not in moved]
+            exprs = exprs + [(p, ast.Name(id=a, ctx=ast.Load())) for p, a in moved]
+            args = [a for _, a in named]
+            rebound = stored & {p for p, _ in named}
         rets = [n for n in own if isinstance(n, ast.Return)]
         if len(rets) > 1 or (rets and rets[0] is not body[-1]):
             return None
@@ -383,6 +444,58 @@ def _canon_steps(tree):
       (c) `if a: (if b: S)`  ->  `if a and b: S`      (neither has an else)
 
     Line numbers of the surviving nodes are kept."""
+    for node in ast.walk(tree):
+        # (j) `<literal> == x` / `None is x`  ->  `x == <literal>` / `x is None`
+        if isinstance(node, ast.Compare) and len(node.ops) == 1 and isinstance(node.ops[0], (ast.Eq, ast.NotEq, ast.Is, ast.IsNot)) \
+                and isinstance(node.left, ast.Constant) and not isinstance(node.comparators[0], ast.Constant):
+            node.left, node.comparators[0] = node.comparators[0], node.left
+        #     `NA is x`  ->  `x is NA`   (an ALL-CAPS name is a module-level singleton by the repository's convention)
+        elif isinstance(node, ast.Compare) and len(node.ops) == 1 and isinstance(node.ops[0], (ast.Is, ast.IsNot)) \
+                and isinstance(node.left, ast.Name) and node.left.id.isupper() \
+                and not (isinstance(node.comparators[0], ast.Name) and node.comparators[0].id.isupper()) \
+                and not isinstance(node.comparators[0], ast.Constant):
+            node.left, node.comparators[0] = node.comparators[0], node.left
+    # (k) a conditional expression that is the whole value of a return / a one-target assignment is the if statement
+    #     it abbreviates:  return A if c else B  ->  if c: return A else: return B
+    again = True
+    while again:
+        again = False
+        for node in ast.walk(tree):
+            for field in ('body', 'orelse', 'finalbody'):
+                b = getattr(node, field, None)
+                if not (isinstance(b, list) and b and isinstance(b[0], ast.stmt)):
+                    continue
+                for i, st in enumerate(b):
+                    if isinstance(st, ast.Return) and isinstance(st.value, ast.IfExp):
+                        e = st.value
+                        b[i] = ast.copy_location(ast.If(test=e.test, body=[ast.copy_location(ast.Return(value=e.body), st)],
+                                                        orelse=[ast.copy_location(ast.Return(value=e.orelse), st)]), st)
+                        again = True
+                    elif isinstance(st, ast.Assign) and len(st.targets) == 1 and isinstance(st.value, ast.IfExp) \
+                            and isinstance(st.targets[0], (ast.Name, ast.Attribute)):
+                        e = st.value
+                        import copy as _copy
+                        b[i] = ast.copy_location(ast.If(test=e.test,
+                                                        body=[ast.copy_location(ast.Assign(targets=[st.targets[0]], value=e.body), st)],
+                                                        orelse=[ast.copy_location(ast.Assign(targets=[_copy.deepcopy(st.targets[0])],
+                                                                                             value=e.orelse), st)]), st)
+                        again = True
+            for h in getattr(node, 'handlers', []) or []:
+                for i, st in enumerate(h.body):
+                    if isinstance(st, ast.Return) and isinstance(st.value, ast.IfExp):
+                        e = st.value
+                        h.body[i] = ast.copy_location(ast.If(test=e.test, body=[ast.copy_location(ast.Return(value=e.body), st)],
+                                                             orelse=[ast.copy_location(ast.Return(value=e.orelse), st)]), st)
+                        again = True
+    # `x = x` says nothing; neither does `else: pass`
+    for node in ast.walk(tree):
+        for field in ('body', 'orelse', 'finalbody'):
+            b = getattr(node, field, None)
+            if isinstance(b, list) and any(isinstance(x, ast.Assign) and len(x.targets) == 1 and isinstance(x.targets[0], ast.Name)
+                                           and isinstance(x.value, ast.Name) and x.value.id == x.targets[0].id for x in b):
+                kept = [x for x in b if not (isinstance(x, ast.Assign) and len(x.targets) == 1 and isinstance(x.targets[0], ast.Name)
+                                             and isinstance(x.value, ast.Name) and x.value.id == x.targets[0].id)]
+                b[:] = kept if (kept or field != 'body') else [ast.Pass()]
     for node in ast.walk(tree):
         if isinstance(node, (ast.If, ast.For, ast.While)) and node.orelse and all(isinstance(x, ast.Pass) for x in node.orelse):
             node.orelse = []        # `else: pass` says nothing
